@@ -30,7 +30,7 @@ static void RunScenario(const std::string& id, const std::string& kind, size_t l
 {
 	auto holder = vh::MakeStream(kind, Pattern(len, mul, add));
 	CBinaryStreamReader reader(holder.get());
-	std::string out = "{\"id\":\"" + id + "\",\"kind\":\"" + kind + "\",\"seekable\":" + (kind == "nonseek" ? "false" : "true") +
+	std::string out = "{\"id\":\"" + id + "\",\"kind\":\"" + kind + "\",\"seekable\":" + (kind == "nonseek" ? "false" : "true") + ",\"pastend\":" + (kind == "file" ? "true" : "false") +
 		",\"len\":" + std::to_string(len) + ",\"chunk\":" + std::to_string(CBinaryStreamReader::chunk_size) +
 		",\"mul\":" + std::to_string(mul) + ",\"add\":" + std::to_string(add) + ",\"init\":" + BitSerializerVerifAccess::State(reader) + ",\"ev\":[";
 	bool first = true;
@@ -79,7 +79,7 @@ int main(int argc, char** argv)
 		const size_t maxLen = static_cast<size_t>(atoll(argv[4]));
 		const int maxOps = atoi(argv[5]);
 		const size_t C = CBinaryStreamReader::chunk_size;
-		static const char* kinds[] = { "sstream", "short1", "short3", "short64", "nonseek" };
+		static const char* kinds[] = { "sstream", "short1", "short3", "short64", "nonseek", "file" };
 		for (int i = 0; i < count; ++i)
 		{
 			// Lengths cluster around multiples of the chunk size
@@ -106,7 +106,7 @@ int main(int argc, char** argv)
 				default: ops.push_back({ "setpos", (rng() % (len / C + 2)) * C + rng() % 3 }); break;
 				}
 			}
-			RunScenario("r" + std::to_string(i), kinds[rng() % 5], len, 1 + 2 * static_cast<int>(rng() % 60), static_cast<int>(rng() % 256), ops);
+			RunScenario("r" + std::to_string(i), kinds[rng() % 6], len, 1 + 2 * static_cast<int>(rng() % 60), static_cast<int>(rng() % 256), ops);
 		}
 		return 0;
 	}
